@@ -139,19 +139,28 @@ let result_str = function
   | REmptyPlan -> "emptyplan"
   | RPending -> "pending"
 
-(* the observed trace as model events: an error class stands for any error of that class (the
-   property predicate only looks at the class); decisions are not needed by the predicate *)
+(* the observed trace as model events WITH the decisions the real session took: an error class
+   stands for any error of that class (fields zeroed: the property predicate only looks at the
+   class, the decision is the recorded one) *)
+let zero_fields e = match e with
+  | "Db.Unavailable" -> "Db.Unavailable:One:0:0" | "Db.ReadTimeout" -> "Db.ReadTimeout:One:0:0:0"
+  | "Db.WriteTimeout" -> "Db.WriteTimeout:One:0:0:Simple" | e -> e
 let obs_event (ev : string) : n event =
   let num s = n_of_hex s in
   if ev.[0] = 'c' then EvConnFail (num (String.sub ev 1 (String.length ev - 1)))
   else match String.split_on_char '/' (String.sub ev 1 (String.length ev - 1)) with
     | [t; cl; "ok"] -> EvAttempt (num t, cl_of cl, AOk)
-    | [t; cl; e; _] ->
-      let e = match e with
-        | "Db.Unavailable" -> "Db.Unavailable:One:0:0" | "Db.ReadTimeout" -> "Db.ReadTimeout:One:0:0:0"
-        | "Db.WriteTimeout" -> "Db.WriteTimeout:One:0:0:Simple" | e -> e in
-      EvAttempt (num t, cl_of cl, AErr (err_of e, DontRetry))
+    | [t; cl; e; d] -> EvAttempt (num t, cl_of cl, AErr (err_of (zero_fields e), dec_of d))
     | _ -> failwith "bad event"
+let obs_result (s : string) : n fiber_result =
+  match String.split_on_char ':' s with
+  | ["completed"; t] -> RCompleted (n_of_hex t)
+  | ["ignored"; t] -> RIgnoredWriteError (n_of_hex t)
+  | ["pending"] -> RPending
+  | ["emptyplan"] -> REmptyPlan
+  | ["failed"; "pool"] -> RFailed LConn
+  | ["failed"; cls] -> RFailed (LAttempt (err_of (zero_fields cls)))
+  | _ -> failwith "bad result"
 
 let fiber_case p idem cl0 nplan outs impl =
   let p = policy_of p in
@@ -163,8 +172,13 @@ let fiber_case p idem cl0 nplan outs impl =
   if String.concat " " impl = model then "ok"
   else
     let rec upto = function "=>" :: _ | [] -> [] | x :: r -> x :: upto r in
-    (* the property predicate (C06_trace_prop_ok) on the implementation's own trace *)
-    match (try Some (prop_trace_ok p idem (nat_of_int nplan) (List.map obs_event (upto impl))) with _ -> None) with
+    let rec after = function "=>" :: r :: _ -> Some r | _ :: r -> after r | [] -> None in
+    (* the property predicate (C06_trace_prop_full: safe resend, serial, bound, the recorded decisions
+       followed -- same / successor / stop -- and the result the last event prescribes) on the
+       implementation's own trace *)
+    match (try (match after impl with
+                | Some res -> Some (prop_trace_full p idem plan (List.map obs_event (upto impl)) (obs_result res))
+                | None -> None) with _ -> None) with
     | Some false -> "viol trace-violates-property model=" ^ String.concat "," (List.map event_str tr @ [result_str r])
     | _ -> "diff model=" ^ String.concat "," (List.map event_str tr @ [result_str r])
 
